@@ -1,3 +1,4 @@
+import Rp2.Proofs.TaxRouting
 import Rp2.Props.Tables.Sheets
 import Rp2.Proofs.ReportProps
 /-! # C14 — tax report lists every fraction once, on the sheet of its transaction type -/
@@ -9,4 +10,20 @@ theorem each_fraction_one_row_no_overwrite (idx : String → Nat) (ss : List Str
 theorem us_map : Gen.typeToSheetUS = Tables.modelSheets := Tables.sheets_us
 theorem ie_map : Gen.typeToSheetIE = Tables.modelSheets := Tables.sheets_ie
 theorem map_is_the_propertys : Tables.modelSheets = Tables.propertySheets := Tables.model_sheets_are_the_propertys
+/-- **on the tax-report model** (`taxReport`, shared by US and IE): if the report is generated then every fraction of every asset has
+    exactly one row; rows come in fraction order, each on the sheet of its transaction type; all rows are below the 7 header rows; no
+    (sheet, row) is used twice, however many assets share a sheet; and a sheet is kept iff it received a row -/
+theorem model_every_fraction_once_on_its_sheet (period : Int) (templateRows : Nat) (cs : List Computed) (rows : List TRow) (sheets : List String)
+    (h : taxReport true period templateRows cs = .ok (rows, sheets)) :
+    rows.length = (allFracs cs).length ∧
+    rows.map (fun r => (r.asset, r.sheet)) = (allFracs cs).filterMap (fun p => (sheetOf true p.2.f.ev.typ).map (fun s => (p.1, s))) ∧
+    (∀ r ∈ rows, 7 < r.row) ∧ (rows.map (fun r => (r.sheet, r.row))).Nodup ∧
+    (∀ s, s ∈ sheets ↔ s ∈ allSheets ∧ ∃ r ∈ rows, r.sheet = s) := taxReport_spec period templateRows cs rows sheets h
+/-- the values written for a fraction are the computed ones (`mkTRow`): amount, proceeds, cost basis (none for income), gain,
+    LONG/SHORT, local dates sold / acquired -/
+theorem model_row_values (period : Int) (asset sheet : String) (r : Nat) (n : Numbered) :
+    (mkTRow period asset sheet r n).amt = ofUnits n.f.amt ∧ (mkTRow period asset sheet r n).proceeds = n.f.proceeds ∧
+    (mkTRow period asset sheet r n).cost = n.f.lot.map (fun _ => n.f.cost) ∧ (mkTRow period asset sheet r n).gain = n.f.gain ∧
+    (mkTRow period asset sheet r n).long = n.f.isLong period ∧ (mkTRow period asset sheet r n).sold = civilFromDays n.f.ev.ts.day ∧
+    (mkTRow period asset sheet r n).acquired = n.f.lot.map (fun l => civilFromDays l.ts.day) := ⟨rfl, rfl, rfl, rfl, rfl, rfl, rfl⟩
 end Rp2.C14
